@@ -21,6 +21,14 @@ fn keys() -> Vec<Vec<u8>> {
     v.push(vec![0, 0, 0, 0, 0, 0, 0, 1]);
     v.push(vec![0x80, 0, 0, 0, 0, 0, 0, 0]);
     v.push(vec![0xff; 8]);
+    // keys that look like something else: a length byte in front of 8 / 1 / 2 key bytes, a 65-byte key starting with 0x40,
+    // ASCII digits, a key ending in a line feed
+    v.push(vec![0x08, 0x11, 0x22, 0x33, 0x44, 0x55, 0x66, 0x77, 0x88]);
+    v.push(vec![0x01, 0x5a]);
+    v.push(vec![0x02, 0x5a, 0xa5]);
+    v.push(std::iter::once(0x40u8).chain((0..64).map(|i| (i as u8).wrapping_mul(7).wrapping_add(3))).collect());
+    v.push(b"12345678".to_vec());
+    v.push(vec![0xde, 0xad, 0xbe, 0xef, 0x0a]);
     v
 }
 
